@@ -65,3 +65,6 @@ print(json.dumps({'caught_by': caught, 'undecided': meta['undecided'], 'suite': 
 for p in caught:
     for l in checks[p]['lines']:
         print(p, l)
+# evidence files written while a change was applied are not evidence about the tree: restore the committed ones
+import subprocess as _sp
+_sp.run(['git', '-C', '/verif', 'checkout', '--', 'evidence'])
